@@ -6,6 +6,28 @@ From Verif Require Import Common.Base Model.SampleBuilder Model.SampleBuilderSpe
   Proofs.SampleBuilderScan Proofs.SampleBuilderBuild.
 Open Scope N_scope.
 
+Lemma keys_from_NoDup : forall n h, h < 65536 -> N.of_nat n <= 65536 -> NoDup (keys_from h n).
+Proof.
+  intros n h Hh Hn. apply NoDup_nth_error. intros i j Hi E.
+  rewrite keys_from_length in Hi. rewrite (keys_from_nth n h i Hi Hh) in E.
+  destruct (Nat.lt_ge_cases j n) as [Hj|Hj].
+  - rewrite (keys_from_nth n h j Hj Hh) in E. injection E as E. rewrite !w16_spec in E.
+    assert (Ei : (h + N.of_nat i) mod 65536 = (h + N.of_nat j) mod 65536) by exact E.
+    clear E. lia.
+  - assert (Hnone : nth_error (keys_from h n) j = None) by (apply nth_error_None; rewrite keys_from_length; lia).
+    rewrite Hnone in E. discriminate E.
+Qed.
+
+Lemma NoDup_map_inj_on : forall {A B} (f : A -> B) (l : list A) a b,
+  NoDup (map f l) -> In a l -> In b l -> f a = f b -> a = b.
+Proof.
+  intros A B f l. induction l as [|x l IH]; intros a b Hn Ha Hb E; [contradiction|].
+  cbn in Hn. inversion Hn as [|y m Hx Hm]; subst.
+  destruct Ha as [->|Ha]; destruct Hb as [->|Hb]; auto.
+  - exfalso. apply Hx. rewrite E. apply in_map. exact Hb.
+  - exfalso. apply Hx. rewrite <- E. apply in_map. exact Ha.
+Qed.
+
 Section Top.
   Variable is_head : list N -> bool.
   Variable is_tail : bool -> list N -> bool.
@@ -29,6 +51,27 @@ Section Top.
   Proof.
     intros ops x Hh Hx. destruct (run_invariant ops Hh) as [Hi Ho].
     apply (i_built _ _ _ _ _ Hi). apply Ho. exact Hx.
+  Qed.
+
+  (* within one sample no pushed packet occurs twice *)
+  Lemma emitted_distinct : forall ops x, history_ok ops ->
+    In x (snd (run ops)) -> NoDup (map p_id (s_pkts x)).
+  Proof.
+    intros ops x Hh Hx. destruct (emitted_run ops x Hh Hx) as (h & hp & rest & ds & Hh0 & Hl & Hp & HF & _).
+    rewrite Hp. set (pk := hp :: rest) in *.
+    assert (Hseq : map p_seq pk = keys_from h (List.length pk)).
+    { clear - HF. revert HF. generalize (keys_from h (List.length pk)). induction pk as [|a l IH]; intros ks HF; inversion HF; subst; [reflexivity|].
+      cbn. f_equal; [tauto|]. apply IH. assumption. }
+    assert (Hin : forall p, In p pk -> In p (pushed_of ops)).
+    { clear - HF. revert HF. generalize (keys_from h (List.length pk)). induction pk as [|a l IH]; intros ks HF p Hp; [contradiction|].
+      inversion HF; subst. destruct Hp as [<-|Hp]; [tauto|]. eapply IH; eassumption. }
+    assert (Hnd : NoDup (map p_seq pk)) by (rewrite Hseq; apply keys_from_NoDup; [exact Hh0|lia]).
+    apply NoDup_nth_error. intros i j Hi E. rewrite map_length in Hi.
+    apply (proj1 (NoDup_nth_error (map p_seq pk)) Hnd); [rewrite map_length; exact Hi|].
+    rewrite !nth_error_map in *. destruct (nth_error pk i) as [a|] eqn:Ea; [|apply nth_error_None in Ea; lia].
+    destruct (nth_error pk j) as [b|] eqn:Eb; [|discriminate E]. cbn in E |- *. injection E as E.
+    f_equal. f_equal. destruct Hh as [_ Hids].
+    apply (NoDup_map_inj_on p_id (pushed_of ops)); auto; apply Hin; eapply nth_error_In; eassumption.
   Qed.
 
   Lemma emitted_wf : forall ops x, history_ok ops ->
